@@ -26,10 +26,11 @@ Proof. intros H. rewrite count_map. apply count_ext. exact H. Qed.
 
 Lemma hlength_parts l :
   length l = count is_hprobe l + count is_hpscan l + count is_hscan l + count is_hchk l + count is_hpdrain l
-             + count is_hdraining l + count is_hdone l + count is_haband l + count is_herr l.
+             + count is_hdraining l + count is_hdone l + count is_habing l + count is_haband l + count is_hlost l
+             + count is_herr l.
 Proof.
   induction l as [|a l IH]; [reflexivity|]. rewrite !count_cons. cbn [length].
-  destruct a; cbn [b2n is_hprobe is_hpscan is_hscan is_hchk is_hpdrain is_hdraining is_hdone is_haband is_herr]; lia.
+  destruct a; cbn [b2n is_hprobe is_hpscan is_hscan is_hchk is_hpdrain is_hdraining is_hdone is_habing is_haband is_hlost is_herr]; lia.
 Qed.
 
 Ltac hfacts H q :=
@@ -37,7 +38,8 @@ Ltac hfacts H q :=
   pose proof (count_upd is_hscan _ _ _ q H); pose proof (count_upd is_hchk _ _ _ q H);
   pose proof (count_upd is_hpdrain _ _ _ q H); pose proof (count_upd is_hdraining _ _ _ q H);
   pose proof (count_upd is_hdone _ _ _ q H); pose proof (count_upd is_haband _ _ _ q H);
-  pose proof (count_upd is_herr _ _ _ q H);
+  pose proof (count_upd is_herr _ _ _ q H); pose proof (count_upd is_habing _ _ _ q H);
+  pose proof (count_upd is_hlost _ _ _ q H); pose proof (count_nth_ge is_habing _ _ _ H);
   pose proof (count_nth_ge is_hprobe _ _ _ H); pose proof (count_nth_ge is_hpscan _ _ _ H);
   pose proof (count_nth_ge is_hscan _ _ _ H); pose proof (count_nth_ge is_hchk _ _ _ H);
   pose proof (count_nth_ge is_hpdrain _ _ _ H); pose proof (count_nth_ge is_hdraining _ _ _ H);
@@ -45,29 +47,33 @@ Ltac hfacts H q :=
 
 Ltac hwake_rw :=
   rewrite ?cwd_pdrain, ?cwd_chk, ?(cwd_other is_hprobe), ?(cwd_other is_hpscan), ?(cwd_other is_hscan),
-    ?(cwd_other is_hdraining), ?(cwd_other is_hdone), ?(cwd_other is_haband), ?(cwd_other is_herr),
+    ?(cwd_other is_hdraining), ?(cwd_other is_hdone), ?(cwd_other is_haband), ?(cwd_other is_herr), ?(cwd_other is_habing), ?(cwd_other is_hlost),
     ?cwp_pscan, ?cwp_probe, ?(cwp_other is_hscan), ?(cwp_other is_hchk), ?(cwp_other is_hpdrain),
     ?(cwp_other is_hdraining), ?(cwp_other is_hdone), ?(cwp_other is_haband), ?(cwp_other is_herr),
+    ?(cwp_other is_habing), ?(cwp_other is_hlost),
     ?map_length in * by (intros []; reflexivity).
 
 Ltac hred :=
-  cbn [b2n is_hprobe is_hpscan is_hscan is_hchk is_hpdrain is_hdraining is_hdone is_haband is_herr
+  cbn [b2n is_hprobe is_hpscan is_hscan is_hchk is_hpdrain is_hdraining is_hdone is_habing is_haband is_hlost is_herr
        hps sready dready rem_prob wake_probers wake_drainers andb] in *.
 
 Definition sr_n (s : hst) : nat := if sready s then 1 else 0.
 Definition dr_n (s : hst) : nat := if dready s then 1 else 0.
 
 Record HInv (s : hst) : Prop := {
-  hR : rem_prob s = count is_hprobe (hps s) + count is_hpscan (hps s) + count is_hscan (hps s);
+  hR : rem_prob s = count is_hprobe (hps s) + count is_hpscan (hps s) + count is_hscan (hps s)
+                    + count is_habing (hps s);
   hS0 : sr_n s = 0 -> count is_hscan (hps s) + count is_hchk (hps s) + count is_hpdrain (hps s)
-                      + count is_hdraining (hps s) + count is_hdone (hps s) = 0;
+                      + count is_hdraining (hps s) + count is_hdone (hps s)
+                      + count is_habing (hps s) + count is_haband (hps s) = 0;
   hS1 : sr_n s = 1 -> count is_hpscan (hps s) = 0;
   hD0 : dr_n s = 1 -> rem_prob s = 0 /\ count is_hpdrain (hps s) = 0;
   hD1 : dr_n s = 0 -> rem_prob s = 0 ->
-        count is_hchk (hps s) + count is_hpdrain (hps s) + count is_hdraining (hps s) + count is_hdone (hps s) = 0;
+        count is_hchk (hps s) + count is_hpdrain (hps s) + count is_hdraining (hps s) + count is_hdone (hps s)
+        + count is_haband (hps s) = 0;
   hD2 : 0 < count is_hdraining (hps s) + count is_hdone (hps s) -> dr_n s = 1 /\ sr_n s = 1;
   hE : count is_herr (hps s) = 0;
-  hAb : count is_haband (hps s) = 0
+  hL : count is_hlost (hps s) = 0
 }.
 
 Ltac hviews := unfold sr_n, dr_n in *; hred.
@@ -77,11 +83,12 @@ Proof.
   unfold hinit. constructor; hviews; rewrite ?count_repeat; hred; intros; lia.
 Qed.
 
-Lemma hinv_step s s' : HInv s -> hstep false s s' -> HInv s'.
+Lemma hinv_step ab s s' : HInv s -> hstep ab false s s' -> HInv s'.
 Proof.
-  intros [R S0 S1 D0 D1 D2 E Ab] Hs.
+  intros [R S0 S1 D0 D1 D2 E L] Hs.
   destruct Hs as [s Hsr | i p s H Hp Hsr | i p s H Hp Hsr | i s H Hr | i s H Hr | i s H Hr
-                 | i p s H Hp Hd | i p s H Hp Hd | i s H | i s Hab H | i s Hab H]; try discriminate.
+                 | i p s H Hp Hd | i p s H Hp Hd | i s H | i s Hab H | i s Hab H
+                 | i s H Hr | i s H Hr | i s H Hr | i s Hl H]; try discriminate.
   - (* build_done *)
     destruct s as [ps sr dr rm]; hviews; subst sr; destruct dr;
       constructor; hviews; hwake_rw; intros; lia.
@@ -106,30 +113,43 @@ Proof.
       destruct s as [ps sr dr rm]; hviews; destruct sr, dr; try discriminate; constructor; hviews; intros; lia.
   - (* drain_done *)
     hfacts H HDone. destruct s as [ps sr dr rm]; hviews; destruct sr, dr; constructor; hviews; intros; lia.
+  - (* abandon while probing *)
+    hfacts H HAbandoning. destruct s as [ps sr dr rm]; hviews; destruct sr, dr; constructor; hviews; intros; lia.
+  - (* abandon while draining *)
+    hfacts H HDone. destruct s as [ps sr dr rm]; hviews; destruct sr, dr; constructor; hviews; intros; lia.
+  - (* abandon_fin_last *)
+    pose proof (map_nth_error wake_drainers _ _ H) as H'. hred. hfacts H' HAbandoned. hwake_rw. hfacts H HAbandoning.
+    destruct s as [ps sr dr rm]; hviews; subst rm; destruct sr, dr; constructor; hviews; hwake_rw; intros; lia.
+  - (* abandon_fin *)
+    hfacts H HAbandoned. destruct s as [ps sr dr rm]; hviews; destruct sr, dr; constructor; hviews; intros; lia.
+  - (* abandon_fin_err *)
+    hfacts H HErr. hviews. exfalso. lia.
 Qed.
 
-Theorem hinv_reach n s : hreach false n s -> HInv s.
+Theorem hinv_reach ab n s : hreach ab false n s -> HInv s.
 Proof. induction 1; [apply hinv_init | eapply hinv_step; eassumption]. Qed.
 
-(* ---------- theorems: no early exhaustion (no LIMIT above the join) ---------- *)
+(* ---------- theorems: with or without a LIMIT above the join, as long as no abandon is lost ---------- *)
 
-Theorem hj_inv_parked_implies_flag_unset n s :
-  hreach false n s ->
+Theorem hj_inv_parked_implies_flag_unset ab n s :
+  hreach ab false n s ->
   (0 < count is_hpscan (hps s) -> sready s = false) /\
   (0 < count is_hpdrain (hps s) -> dready s = false).
 Proof.
-  intros Hr. destruct (hinv_reach _ _ Hr) as [R S0 S1 D0 D1 D2 E Ab]. unfold sr_n, dr_n in *. split; intros H.
+  intros Hr. destruct (hinv_reach _ _ _ Hr) as [R S0 S1 D0 D1 D2 E L]. unfold sr_n, dr_n in *. split; intros H.
   - destruct (sready s); [|reflexivity]. specialize (S1 eq_refl). lia.
   - destruct (dready s); [|reflexivity]. specialize (D0 eq_refl). lia.
 Qed.
 
-Theorem hj_no_error_path n s : hreach false n s -> count is_herr (hps s) = 0.
-Proof. intros Hr. apply (hE _ (hinv_reach _ _ Hr)). Qed.
+Theorem hj_no_error_path ab n s : hreach ab false n s -> count is_herr (hps s) = 0.
+Proof. intros Hr. apply (hE _ (hinv_reach _ _ _ Hr)). Qed.
 
-Theorem hj_no_deadlock n s :
-  hreach false n s -> ~ hall_done s -> exists s', hstep false s s' /\ s' <> s.
+(* no deadlock for arbitrary N, with (ab = true) or without (ab = false) early exhaustion by a
+   downstream LIMIT, given the stack delivers the AbandonOperator finalize *)
+Theorem hj_no_deadlock_with_limit ab n s :
+  hreach ab false n s -> ~ hall_done s -> exists s', hstep ab false s s' /\ s' <> s.
 Proof.
-  intros Hr ND. destruct (hinv_reach _ _ Hr) as [R S0 S1 D0 D1 D2 E Ab].
+  intros Hr ND. destruct (hinv_reach _ _ _ Hr) as [R S0 S1 D0 D1 D2 E L].
   unfold hall_done in ND. pose proof (hlength_parts (hps s)) as LP. unfold sr_n, dr_n in *.
   destruct (sready s) eqn:Hsr.
   2:{ eexists. split; [apply h_build_done; assumption|].
@@ -146,6 +166,13 @@ Proof.
         intros X. apply (f_equal rem_prob) in X. cbn [rem_prob] in X. lia.
       - eexists. split; [eapply h_finalize; [eassumption|lia]|].
         intros X. apply (f_equal rem_prob) in X. cbn [rem_prob] in X. lia. }
+  destruct (Nat.eq_dec (count is_habing (hps s)) 0) as [Z2b|N2b].
+  2:{ destruct (count_pos_nth is_habing (hps s)) as (i & p & Hi & Hp); [lia|]. destruct p; try discriminate.
+      destruct (Nat.eq_dec (rem_prob s) 1) as [R1|R1].
+      - eexists. split; [eapply h_abandon_fin_last; eassumption|].
+        intros X. apply (f_equal rem_prob) in X. cbn [rem_prob] in X. lia.
+      - eexists. split; [eapply h_abandon_fin; [eassumption|lia]|].
+        intros X. apply (f_equal rem_prob) in X. cbn [rem_prob] in X. lia. }
   destruct (Nat.eq_dec (count is_hchk (hps s)) 0) as [Z3|N3].
   2:{ destruct (count_pos_nth is_hchk (hps s)) as (i & p & Hi & Hp); [lia|]. destruct p; try discriminate.
       destruct (dready s && sready s) eqn:Hd.
@@ -157,43 +184,52 @@ Proof.
   2:{ destruct (count_pos_nth is_hdraining (hps s)) as (i & p & Hi & Hp); [lia|]. destruct p; try discriminate.
       eexists. split; [eapply h_drain_done; eassumption|].
       intros X. apply (f_equal hps) in X. cbn [hps] in X. eapply upd_neq in X; [assumption|eassumption|discriminate]. }
-  (* only partitions parked for the drain are left: then every prober finalized, so drain_ready is set *)
+  (* only partitions parked for the drain are left: every prober finalized (normally or by abandon),
+     so drain_ready is set *)
   exfalso. destruct (dready s); [specialize (D0 eq_refl); lia|]. specialize (D1 eq_refl). lia.
 Qed.
 
-(* ---------- with early exhaustion (LIMIT / EXISTS above the join): REFUTED ---------- *)
+Theorem hj_no_deadlock n s :
+  hreach false false n s -> ~ hall_done s -> exists s', hstep false false s s' /\ s' <> s.
+Proof. apply hj_no_deadlock_with_limit. Qed.
+
+(* ---------- a lost abandon (two exhausting operators above the join; = the stack before commit
+   131551599 with a single LIMIT): REFUTED ---------- *)
 
 Definition hj_deadlock_state : hst :=
-  {| hps := [HAbandoned; HParkedDrain]; sready := true; dready := false; rem_prob := 1 |}.
+  {| hps := [HLost; HParkedDrain]; sready := true; dready := false; rem_prob := 1 |}.
 
-(* Two partitions.  Partition 0's pipeline is exhausted by a downstream LIMIT while it probes, so its
-   poll_finalize_execute is never called and remaining_probers stays 1; partition 1 finishes its
+(* Two partitions.  Partition 0's pipeline is exhausted by a downstream LIMIT while it probes and its
+   poll_finalize_execute is never called, so remaining_probers stays 1; partition 1 finishes its
    input, finalizes, and waits for drain_ready for ever: no step of any partition changes the
    state, on every schedule. *)
-Theorem hj_drain_deadlock_with_limit_refuted :
-  hreach true 2 hj_deadlock_state /\ ~ hall_done hj_deadlock_state /\
-  forall s', hstep true hj_deadlock_state s' -> s' = hj_deadlock_state.
+Theorem hj_drain_deadlock_with_nested_limit_refuted :
+  hreach true true 2 hj_deadlock_state /\ ~ hall_done hj_deadlock_state /\
+  forall s', hstep true true hj_deadlock_state s' -> s' = hj_deadlock_state.
 Proof.
   split; [|split].
   - assert (E : hj_deadlock_state =
-      {| hps := upd [HAbandoned; HDrainChk] 1 HParkedDrain; sready := true; dready := false; rem_prob := 1 |}) by reflexivity.
+      {| hps := upd [HLost; HDrainChk] 1 HParkedDrain; sready := true; dready := false; rem_prob := 1 |}) by reflexivity.
     rewrite E.
-    eapply hr_step; [|apply (h_drain_park true 1 HDrainChk
-        {| hps := [HAbandoned; HDrainChk]; sready := true; dready := false; rem_prob := 1 |}); reflexivity].
-    eapply hr_step; [|apply (h_finalize true 1
-        {| hps := [HAbandoned; HScan]; sready := true; dready := false; rem_prob := 2 |}); [reflexivity | cbn; lia]].
-    eapply hr_step; [|apply (h_abandon true 0
+    eapply hr_step; [|apply (h_drain_park true true 1 HDrainChk
+        {| hps := [HLost; HDrainChk]; sready := true; dready := false; rem_prob := 1 |}); reflexivity].
+    eapply hr_step; [|apply (h_finalize true true 1
+        {| hps := [HLost; HScan]; sready := true; dready := false; rem_prob := 2 |}); [reflexivity | cbn; lia]].
+    eapply hr_step; [|apply (h_abandon_lost true true 0
+        {| hps := [HAbandoning; HScan]; sready := true; dready := false; rem_prob := 2 |}); reflexivity].
+    eapply hr_step; [|apply (h_abandon true true 0
         {| hps := [HScan; HScan]; sready := true; dready := false; rem_prob := 2 |}); reflexivity].
-    eapply hr_step; [|apply (h_scan_ready true 1 HProbe
+    eapply hr_step; [|apply (h_scan_ready true true 1 HProbe
         {| hps := [HScan; HProbe]; sready := true; dready := false; rem_prob := 2 |}); reflexivity].
-    eapply hr_step; [|apply (h_scan_ready true 0 HProbe
+    eapply hr_step; [|apply (h_scan_ready true true 0 HProbe
         {| hps := [HProbe; HProbe]; sready := true; dready := false; rem_prob := 2 |}); reflexivity].
-    eapply hr_step; [|apply (h_build_done true (hinit 2)); reflexivity].
+    eapply hr_step; [|apply (h_build_done true true (hinit 2)); reflexivity].
     apply hr_init.
   - unfold hall_done, hj_deadlock_state. cbn. lia.
   - intros s' Hs. unfold hj_deadlock_state in *.
     inversion Hs as [s Hsr | i p s H Hp Hsr | i p s H Hp Hsr | i s H Hr | i s H Hr | i s H Hr
-                    | i p s H Hp Hd | i p s H Hp Hd | i s H | i s Hab H | i s Hab H]; subst; cbn in *;
+                    | i p s H Hp Hd | i p s H Hp Hd | i s H | i s Hab H | i s Hab H
+                    | i s H Hr | i s H Hr | i s H Hr | i s Hl H]; subst; cbn in *;
       try discriminate;
       try (destruct i as [|[|i]]; cbn in *; try discriminate; inversion H; subst; cbn in *; try discriminate; reflexivity);
       try (destruct i as [|[|[|i]]]; cbn in *; discriminate).
@@ -201,18 +237,22 @@ Proof.
       injection H as <-; cbn in Hp; try discriminate; try reflexivity.
 Qed.
 
-Example hj_run_example : exists s, hreach false 1 s /\ hall_done s.
+(* the repaired path: the abandoned partition's finalize releases the partition parked for the drain *)
+Example hj_run_example : exists s, hreach true false 2 s /\ hall_done s.
 Proof.
-  eexists. split.
-  - eapply hr_step. eapply hr_step. eapply hr_step. eapply hr_step. eapply hr_step. apply hr_init.
-    + apply h_build_done. reflexivity.
-    + apply (h_scan_ready false 0 HProbe); reflexivity.
-    + apply (h_finalize_last false 0); reflexivity.
-    + apply (h_drain_ready false 0 HDrainChk); reflexivity.
-    + apply (h_drain_done false 0); reflexivity.
-  - reflexivity.
+  exists {| hps := [HAbandoned; HDone]; sready := true; dready := true; rem_prob := 0 |}. split; [|reflexivity].
+  eapply hr_step; [|apply (h_drain_done true false 1 {| hps := [HAbandoned; HDraining]; sready := true; dready := true; rem_prob := 0 |}); reflexivity].
+  eapply hr_step; [|apply (h_drain_ready true false 1 HDrainChk {| hps := [HAbandoned; HDrainChk]; sready := true; dready := true; rem_prob := 0 |}); reflexivity].
+  eapply hr_step; [|apply (h_abandon_fin_last true false 0 {| hps := [HAbandoning; HParkedDrain]; sready := true; dready := false; rem_prob := 1 |}); reflexivity].
+  eapply hr_step; [|apply (h_drain_park true false 1 HDrainChk {| hps := [HAbandoning; HDrainChk]; sready := true; dready := false; rem_prob := 1 |}); reflexivity].
+  eapply hr_step; [|apply (h_finalize true false 1 {| hps := [HAbandoning; HScan]; sready := true; dready := false; rem_prob := 2 |}); [reflexivity | cbn; lia]].
+  eapply hr_step; [|apply (h_abandon true false 0 {| hps := [HScan; HScan]; sready := true; dready := false; rem_prob := 2 |}); reflexivity].
+  eapply hr_step; [|apply (h_scan_ready true false 1 HProbe {| hps := [HScan; HProbe]; sready := true; dready := false; rem_prob := 2 |}); reflexivity].
+  eapply hr_step; [|apply (h_scan_ready true false 0 HProbe {| hps := [HProbe; HProbe]; sready := true; dready := false; rem_prob := 2 |}); reflexivity].
+  eapply hr_step; [|apply (h_build_done true false (hinit 2)); reflexivity].
+  apply hr_init.
 Qed.
 
-Print Assumptions hj_no_deadlock.
+Print Assumptions hj_no_deadlock_with_limit.
 Print Assumptions hj_inv_parked_implies_flag_unset.
-Print Assumptions hj_drain_deadlock_with_limit_refuted.
+Print Assumptions hj_drain_deadlock_with_nested_limit_refuted.
